@@ -8,7 +8,7 @@ def plan(ctx):
     import itertools
     T = ["liberasurecode_backend_instance_register", "liberasurecode_backend_instance_unregister", "liberasurecode_backend_alloc_desc", "liberasurecode_backend_instance_get_by_desc"]
     for excl in (0,):
-        depth = 4 if not thorough else 6
+        depth = 2 if not thorough else 3
         defs = dict(DEPTH=depth, SLOTS=3)
         if excl: defs["EXCL_WRAP"] = None
         obs.append(Ob(id=f"registry-history-d{depth}" + ("-excl-wrap" if excl else ""), harness="c14.c", defs=defs, units=RU, unwind=8, unwindset={"liberasurecode_backend_alloc_desc.0": 8},
